@@ -20,13 +20,13 @@ if [ -z "$DEMO" ]; then echo "no demo.rs" >> $R; fi
 mkdir -p tests; [ -n "$DEMO" ] && cp $DEMO tests/demo.rs
 # (3) clean tree: demo passes
 if [ -n "$DEMO" ]; then
-  if cargo test --offline --test demo > /tmp/mc/$NAME.demo_clean.log 2>&1; then echo "demo_clean=pass" >> $R; else echo "demo_clean=FAIL" >> $R; fi
+  if cargo test --offline --features verif --test demo > /tmp/mc/$NAME.demo_clean.log 2>&1; then echo "demo_clean=pass" >> $R; else echo "demo_clean=FAIL" >> $R; fi
 fi
 git apply $SRC/patch.diff || { echo "apply=FAIL" >> $R; exit 1; }
 echo "apply=ok" >> $R
 if cargo build --offline --features verif > /tmp/mc/$NAME.build.log 2>&1; then echo "build_verif=ok" >> $R; else echo "build_verif=FAIL" >> $R; fi
 if [ -n "$DEMO" ]; then
-  if cargo test --offline --test demo > /tmp/mc/$NAME.demo_mut.log 2>&1; then echo "demo_mut=PASS(unexpected)" >> $R; else echo "demo_mut=fail(expected)" >> $R; fi
+  if cargo test --offline --features verif --test demo > /tmp/mc/$NAME.demo_mut.log 2>&1; then echo "demo_mut=PASS(unexpected)" >> $R; else echo "demo_mut=fail(expected)" >> $R; fi
 fi
 cargo test --offline --lib -- --skip bls12_engine_tests --skip g2_curve_tests --skip fq12_field_tests > /tmp/mc/$NAME.suite.log 2>&1
 echo "suite=$(grep -E '^test result' /tmp/mc/$NAME.suite.log | head -1)" >> $R
